@@ -98,14 +98,22 @@ pub struct Exec {
     pub check: &'static str,
     pub script: Vec<String>,
     pub diverged: bool,
+    /// C12: an explicit out-of-memory error of a too-small cache ends the run without being a divergence
+    pub permit_oom: bool,
+    pub stopped_oom: bool,
 }
 
 impl Exec {
     pub fn new(check: &'static str, cfg: axmosdb::DBConfig) -> Exec {
-        Exec { db: Dbx::create(cfg), committed: State::default(), sessions: Default::default(), transcript: vec![], atoms: BTreeSet::new(), check, script: vec![], diverged: false }
+        Exec { db: Dbx::create(cfg), committed: State::default(), sessions: Default::default(), transcript: vec![], atoms: BTreeSet::new(), check, script: vec![], diverged: false, permit_oom: false, stopped_oom: false }
     }
 
     fn fail(&mut self, oracle: &str, kind: &str, detail: &str) {
+        if self.permit_oom && (kind.contains("(oom)") || detail.contains("out of memory")) {
+            self.stopped_oom = true;
+            let _ = take_panics();
+            return;
+        }
         let atoms: Vec<String> = self.atoms.iter().cloned().collect();
         let panics: Vec<J> = take_panics().iter().map(|p| J::Str(format!("{} {}", panic_site(&p.location), p.message))).collect();
         report::violation(
@@ -171,6 +179,9 @@ impl Exec {
             return;
         }
         self.script.push(st.show());
+        if std::env::var("AXV_TRACE").is_ok() {
+            eprintln!("  step {}", st.show().chars().take(150).collect::<String>());
+        }
         match st {
             Step::Auto(s) => {
                 let o = self.db.exec(&s.sql());
